@@ -481,7 +481,7 @@ def _specific_yield(ctx, chk, rprog):
         v = cflow.def_value(node) if isinstance(node, ast.Name) else node
         if isinstance(v, ast.Call) and (full_call_name(cf.module, v) or "").endswith("numpy.linspace") and len(v.args) >= 3:
             try:
-                return tuple(py_poly(a).const_value() for a in v.args[:3])
+                return tuple(py_poly(a).const_or_none() for a in v.args[:3])
             except Exception:
                 return None
         return None
@@ -489,7 +489,7 @@ def _specific_yield(ctx, chk, rprog):
     def rseq(name):
         v = rtop.get(name, [None])[0]
         if v and v[0] == "call" and v[1] == ("name", "seq") and len(v[2]) == 3:
-            a, b, by = (to_poly(REnv(rf).term(x[1])).const_value() for x in v[2])
+            a, b, by = (to_poly(REnv(rf).term(x[1])).const_or_none() for x in v[2])
             return (a, b, (b - a) / by + 1)
         return None
 
